@@ -7,7 +7,8 @@
 //   "opensmt::ArithLogic::mkBinaryLeq(opensmt::PTRef, opensmt::PTRef)": "stuv_mkBinaryLeq",
 //   "opensmt::ArithLogic::mkPlus(opensmt::vec<opensmt::PTRef>&&)": "stuv_mkPlus", "opensmt::ArithLogic::mkTimes(opensmt::vec<opensmt::PTRef>&&)": "stuv_mkTimes",
 //   "opensmt::ArithLogic::mkIntConst(opensmt::FastRational const&)": "stuv_mkIntConst",
-//   "opensmt::ArithLogic::isNumEq(opensmt::SymRef) const": "stuv_isNumEq", "opensmt::Logic::isDisequality(opensmt::PTRef) const": "stuv_isDisequality"
+//   "opensmt::ArithLogic::isNumEq(opensmt::SymRef) const": "stuv_isNumEq", "opensmt::Logic::isDisequality(opensmt::PTRef) const": "stuv_isDisequality",
+//   "opensmt::Logic::hasSortBool(opensmt::PTRef) const": "stuv_hasSortBool", "opensmt::Logic::isIte(opensmt::PTRef) const": "stuv_false_ptref"
 #pragma once
 #include "stu_arith.h"
 namespace stu {
@@ -30,8 +31,20 @@ static PTRef vFreshVar(int32_t lo, int32_t hi) { return vVar(8 + fresh_vars++, l
 static int32_t mul_small(int32_t c, int32_t x) {   // c in [-3,3]: multiplication without a multiplier circuit
     switch (c) { case 0: return 0; case 1: return x; case -1: return -x; case 2: return x + x; case -2: return -(x + x); case 3: return x + x + x; default: return -(x + x + x); }
 }
+template <class F> static int vslot(F pmf) {       // vtable slot of a virtual member function (Itanium ABI pointer-to-member encoding)
+    union { F f; struct { intptr_t ptr; intptr_t adj; } r; } u;
+    u.f = pmf;
+    return (int)((u.r.ptr - 1) / 8);
+}
+static void * fake_logic_vt[256];
+}
+extern "C" opensmt::PTRef stuv_mkBinaryEq(void *, opensmt::PTRef a, opensmt::PTRef b);
+namespace stu {
 static void init_valued(void * rawLogic) {
     init_logic(rawLogic);
+    // Logic::mkEq(PTRef,PTRef) dispatches to the virtual mkBinaryEq: the raw logic object gets a vtable whose only filled slot is that one
+    fake_logic_vt[vslot(&Logic::mkBinaryEq)] = (void *)&stuv_mkBinaryEq;
+    *reinterpret_cast<void ***>(L) = fake_logic_vt;
     L->sym_Int_DIV = SymRef{SYM_DIV}; L->sym_Int_MOD = SymRef{SYM_MOD};
     fresh_vars = 0; overflow_seen = 0;
 }
@@ -91,4 +104,6 @@ opensmt::PTRef stuv_mkIntConst(void *, opensmt::FastRational const * c) {
 }
 bool stuv_isNumEq(void *, opensmt::SymRef s) { return s.x == stu::SYM_EQ; }
 bool stuv_isDisequality(void *, opensmt::PTRef t) { return stu::ref_ok(t) && stu::nodes[t.x].pt->sym.x == stu::SYM_DISTINCT; }
+bool stuv_hasSortBool(void *, opensmt::PTRef t) { return stu::ref_ok(t) && stu::isBool[t.x]; }
+bool stuv_false_ptref(void *, opensmt::PTRef) { return false; }
 }
